@@ -341,12 +341,10 @@ def zeros(
     samples = int(np.ceil(over_sample_rate * ntmp))
 
     # Generate actual samples, removing duplicates, nonzeros and excess
-    tmpsubs = (
-        np.ceil(
-            np.random.uniform(0, 1, (samples, data.ndims)) * np.array(data.shape),
-        ).astype(int)
-        - 1
-    )
+    # floor(u * n) lies in [0, n - 1] for every u in [0, 1); (ceil(u * n) - 1 is -1 at u == 0)
+    tmpsubs = np.floor(
+        np.random.uniform(0, 1, (samples, data.ndims)) * np.array(data.shape),
+    ).astype(int)
 
     if not with_replacement:
         tmpsubs = np.unique(tmpsubs, axis=0)
@@ -385,12 +383,10 @@ def uniform(data: ttb.tensor, samples: int) -> sample_type:
     -------
         Subscripts of samples, values at those subscripts, and weight of samples.
     """
-    subs = (
-        np.ceil(
-            np.random.uniform(0, 1, (samples, data.ndims)) * np.array(data.shape),
-        ).astype(int)
-        - 1
-    )
+    # floor(u * n) lies in [0, n - 1] for every u in [0, 1); (ceil(u * n) - 1 is -1 at u == 0)
+    subs = np.floor(
+        np.random.uniform(0, 1, (samples, data.ndims)) * np.array(data.shape),
+    ).astype(int)
     vals = data[subs]
     wgts = (np.prod(data.shape) / samples) * np.ones((samples,))
     return subs, vals, wgts
